@@ -1097,6 +1097,12 @@ def _post_payloads() -> List[Any]:
     return [None] + objs[:24] + [objs[i] for i in range(24, len(objs), 7)]
 
 
+def _big_payloads() -> List[Any]:
+    """Payloads around and beyond a pipe buffer / typical chunk sizes (64 KiB, 1 MiB)."""
+    return [{"pad": "p" * 65000}, {"pad": "é" * 33000, "n": None}, {"pad": "x" * (65536 - 40)}, {"pad": ["y" * 70000, None]},
+            {"pad": "z" * 1100000, "tail": {"k": None}}]
+
+
 def _built(way: str, kind: str, rid: Any, p: Any):
     """(message object or dict, expected members) - or None when this way cannot express the case."""
     from chuk_mcp.protocol.messages import json_rpc_message as jm
@@ -1166,7 +1172,7 @@ def _run_posts(cfg) -> Dict[str, Any]:
     J = Judge(f"{transport}:{way}")
     msgs: List[tuple] = []
     for kind in POST_KINDS:
-        for p in _post_payloads():
+        for p in (_big_payloads() if cfg.get("big") else _post_payloads()):
             ctx = f"{transport} <- {kind} built by {way}, id={_show(rid)}, payload={_show(p)}"
             try:
                 b = _built(way, kind, rid, p)
@@ -1265,10 +1271,17 @@ def _run_posts(cfg) -> Dict[str, Any]:
     bodies = info["bodies"]
     for kind, exp, ctx, n0, n1 in wires:
         J.count("cases")
-        if n1 - n0 != 1:
-            J.bad("transport-write-count", f"{n1 - n0} writes/POSTs for one message; {ctx}", writes=min(n1 - n0, 2))
+        if transport == "stdio":
+            # the child reads a byte stream: how many writes one line took is the transport's business
+            raw = b"".join(bodies[n0:n1])
+            if n1 == n0 or not raw.endswith(b"\n") or raw.count(b"\n") != 1:
+                J.bad("stdio-framing", f"{n1 - n0} writes giving {raw[:60]!r}...{raw[-30:]!r}: not exactly one LF-terminated line; {ctx}")
+                continue
+        elif n1 - n0 != 1:
+            J.bad("transport-write-count", f"{n1 - n0} POSTs for one message; {ctx}", writes=min(n1 - n0, 2))
             continue
-        raw = bodies[n0]
+        else:
+            raw = bodies[n0]
         try:
             w = json.loads(raw.decode("utf-8"))
         except Exception as e:  # noqa: BLE001
@@ -1867,6 +1880,8 @@ def run(tier: str, only=None) -> core.Result:
     pids = [0, 2 ** 64 - 1, "", "007", "é"]
     cfgs = [{"part": "posts", "transport": ti, "way": wi, "ids": pids, "id": ii}
             for ti in range(len(POST_TRANSPORTS)) for wi in range(len(WAYS)) for ii in range(len(pids))]
+    cfgs += [{"part": "posts", "transport": ti, "way": wi, "ids": pids, "id": 1, "big": True}
+             for ti in range(len(POST_TRANSPORTS)) for wi in (0, 1, 3, 9)]
     out = explorer.explore(RUN, cfgs)
     sched.absorb(res, "d-transport-wire-forms", RUN, out, cfgs)
     samples += [{"part": "d-transport-wire-forms", "index": i, "case": {"transport": POST_TRANSPORTS[cfgs[i]["transport"]], "way": WAYS[cfgs[i]["way"]],
@@ -1969,7 +1984,7 @@ def run(tier: str, only=None) -> core.Result:
         "already carry _meta {empty, other members, a stale token, nested nulls, every depth-1 object}: the emitted params must equal the given ones plus exactly the "
         "token. What the three transports put on the wire (stdio stdin bytes, Streamable-HTTP POST body, legacy SSE POST body via the scripted httpx seam) for "
         "messages built 10 ways (create_*, unified classmethods, classes with and WITHOUT jsonrpc=, unified class with and without, parse_message, model_validate "
-        "with and without the member, plain dict) x 4 kinds x 5 ids x 32 payloads: the bytes must be a valid envelope (jsonrpc exactly '2.0') with the given members. "
+        "with and without the member, plain dict) x 4 kinds x 5 ids x 32 payloads, and 4 ways x 5 LARGE payloads (65,000 bytes ... 1.1 MB, around and beyond a 64 KiB pipe buffer): the bytes must be a valid envelope (jsonrpc exactly '2.0') with the given members. "
         "the same object handed to the stdio write stream again after a change (typed / unified / dict x 4 kinds x id value, id JSON type, method, params member, "
         "params removed, result, error x sequences A,A' / A,B,A' / A,A,A'): every line must equal the object as it is when handed over. Payload-less success "
         "responses from 9 emitters (create_response with and without None, the unified classmethod three ways, server ping on two server objects, "
